@@ -214,7 +214,7 @@ pub fn reply_case_strategy_rows(p: &Program, well: u32, unknown_w: u32, garbage_
             (
                 payload_args_strategy(&pm),
                 data_strategy(mode, &ty, well),
-                proptest::collection::vec(("[a-z_]{1,8}", proptest::collection::vec(("[a-z]{1,6}", "[ -~]{0,8}"), 0..3)), 0..3),
+                proptest::collection::vec(("[a-z][a-z_]{1,7}", proptest::collection::vec(("[a-z]{1,6}", "[ -~]{0,8}"), 0..3)), 0..3),
                 proptest::collection::vec(("/[a-z.]{1,12}", proptest::collection::vec(any::<u8>(), 0..8)), 0..2),
                 any::<u64>(),
                 "[ -~]{0,20}",
